@@ -190,6 +190,9 @@ pub struct NodeCase {
     pub at: i64,
     /// index into a small menu of claim lists for the second announcement / the restarted peer
     pub variant: usize,
+    /// everybody configured with `algorithms: [plain]` (unencrypted connections)
+    #[serde(default)]
+    pub plain: bool,
 }
 
 fn node_claims(v: usize) -> Vec<Range> {
@@ -232,11 +235,15 @@ pub fn run_node(c: &NodeCase) -> CaseResult {
         cfg.claims = vec![format!("10.{}.0.0/16", 200 + i)];
         cfg.peer_timeout = 300;
         cfg.keepalive = Some(10);
+        if c.plain {
+            cfg.crypto.algorithms = vec!["plain".to_string()];
+        }
         cfgs.push(cfg);
     }
     let mut net = Net::<Packet>::mesh(&cfgs, 2);
     let first = node_claims(0);
-    let mut s = Scripted::new(50, 50, 0, &[0], &first, Some(300));
+    let algos: &[&str] = if c.plain { &["plain"] } else { &[] };
+    let mut s = Scripted::new_with_algorithms(50, 50, 0, &[0], &first, Some(300), algos);
     if !s.connect(&mut net, 0) {
         return Err(Fail::new("harness", "scripted peer could not connect"));
     }
@@ -298,7 +305,7 @@ pub fn run_node(c: &NodeCase) -> CaseResult {
         "restart" => {
             // a new process on the same address: new node id, other claims, fresh handshake
             let next = node_claims(c.variant);
-            let mut s2 = Scripted::new(50, 51, 0, &[0], &next, Some(300));
+            let mut s2 = Scripted::new_with_algorithms(50, 51, 0, &[0], &next, Some(300), algos);
             if !s2.connect(&mut net, 0) {
                 return Err(Fail::new("restart_rejected", "restarted peer on the same address could not connect").with("scenario", c.scenario.clone()));
             }
@@ -334,7 +341,7 @@ pub fn run_node(c: &NodeCase) -> CaseResult {
         }
         "failed_second_handshake" => {
             // a second handshake from the same address starts (genuine ping of a restarted process) and never completes
-            let mut s2 = Scripted::new(50, 52, 0, &[0], &node_claims(c.variant), Some(300));
+            let mut s2 = Scripted::new_with_algorithms(50, 52, 0, &[0], &node_claims(c.variant), Some(300), algos);
             s2.dial(&mut net, 0);
             net.queue.retain(|w| w.to != s_addr); // the pong goes nowhere
             // the old process is gone (it was replaced by the one that dialled), nobody answers from that address
@@ -394,7 +401,10 @@ pub fn run(ctx: &Ctx) {
                 if ["silence", "close", "keepalive_only"].contains(&scenario) && variant > 0 {
                     continue;
                 }
-                nodes.push(NodeCase { scenario: scenario.to_string(), at, variant });
+                nodes.push(NodeCase { scenario: scenario.to_string(), at, variant, plain: false });
+                if at == 1 || at == 61 {
+                    nodes.push(NodeCase { scenario: scenario.to_string(), at, variant, plain: true });
+                }
             }
         }
     }
